@@ -274,27 +274,76 @@ theorem stepRef_sep (w w' : RWorld) (toks : List String) (out : String) (hs : w.
   · simp only [Option.bind_eq_bind, Option.bind_eq_some_iff, Option.pure_def] at h
     obtain ⟨idx, _, h⟩ := h
     split at h
-    · simp at h
+    · simp only [Option.some.injEq, Prod.mk.injEq] at h; rw [← h.1]; exact hs
     · simp only [Option.some.injEq, Prod.mk.injEq] at h; rw [← h.1]; exact w.Sep_construct hs _
   · simp only [Option.bind_eq_bind, Option.bind_eq_some_iff, Option.pure_def] at h
     obtain ⟨i, _, h⟩ := h
     split at h
-    · simp at h
+    · simp only [Option.some.injEq, Prod.mk.injEq] at h; rw [← h.1]; exact hs
     · simp only [Option.some.injEq, Prod.mk.injEq] at h; rw [← h.1]; exact w.Sep_construct hs _
   · simp only [Option.bind_eq_bind, Option.bind_eq_some_iff, Option.pure_def] at h
     obtain ⟨i, _, ops, _, h⟩ := h
     split at h
-    · simp at h
+    · simp only [Option.some.injEq, Prod.mk.injEq] at h; rw [← h.1]; exact hs
     · simp only [Option.some.injEq, Prod.mk.injEq] at h; rw [← h.1]; exact w.Sep_inplace hs _ _
   · simp only [Option.bind_eq_bind, Option.bind_eq_some_iff, Option.pure_def] at h
     obtain ⟨i, _, ops, _, h⟩ := h
     split at h
-    · simp at h
+    · simp only [Option.some.injEq, Prod.mk.injEq] at h; rw [← h.1]; exact hs
     · simp only [Option.some.injEq, Prod.mk.injEq] at h; rw [← h.1]; exact w.Sep_copied hs _ _
   · simp only [Option.bind_eq_bind, Option.bind_eq_some_iff, Option.pure_def] at h
-    obtain ⟨i, _, o, _, h⟩ := h
-    simp only [Option.some.injEq, Prod.mk.injEq] at h; rw [← h.1]; exact hs
+    obtain ⟨i, _, h⟩ := h
+    split at h <;> (simp only [Option.some.injEq, Prod.mk.injEq] at h; rw [← h.1]; exact hs)
   · simp only [Option.some.injEq, Prod.mk.injEq] at h; rw [← h.1]; exact hs
   · simp at h
+
+/-! ## Identity arguments -/
+/-- the argument of an in-place array operation is the identity of its group, in whatever spelling:
+no-op, `*= 1`, `+= 0`, `*= [1,…,1]`, `+= [0,…,0]` -/
+def ArrOp.IsIdentity (a : List Rat) : ArrOp → Prop
+  | .keep => True
+  | .mulS c => c = 1
+  | .addS c => c = 0
+  | .mulV v => a.length ≤ v.length ∧ ∀ x ∈ v, x = 1
+  | .addV v => a.length ≤ v.length ∧ ∀ x ∈ v, x = 0
+
+theorem zipWith_mul_ones (a v : List Rat) (hl : a.length ≤ v.length) (h1 : ∀ x ∈ v, x = 1) :
+    List.zipWith (· * ·) a v = a := by
+  induction a generalizing v with
+  | nil => simp
+  | cons x xs ih =>
+    cases v with
+    | nil => simp at hl
+    | cons y ys =>
+      have hy : y = 1 := h1 y (by simp)
+      simp only [List.zipWith_cons_cons, hy, Rat.mul_one]
+      rw [ih ys (by simpa using hl) (fun z hz => h1 z (by simp [hz]))]
+
+theorem zipWith_add_zeros (a v : List Rat) (hl : a.length ≤ v.length) (h1 : ∀ x ∈ v, x = 0) :
+    List.zipWith (· + ·) a v = a := by
+  induction a generalizing v with
+  | nil => simp
+  | cons x xs ih =>
+    cases v with
+    | nil => simp at hl
+    | cons y ys =>
+      have hy : y = 0 := h1 y (by simp)
+      simp only [List.zipWith_cons_cons, hy, Rat.add_zero]
+      rw [ih ys (by simpa using hl) (fun z hz => h1 z (by simp [hz]))]
+
+theorem ArrOp.apply_identity (op : ArrOp) (a : List Rat) (h : op.IsIdentity a) : op.apply a = a := by
+  cases op with
+  | keep => rfl
+  | mulS c => simp only [ArrOp.IsIdentity] at h; simp [ArrOp.apply, h]
+  | addS c => simp only [ArrOp.IsIdentity] at h; simp [ArrOp.apply, h]
+  | mulV v => exact zipWith_mul_ones a v h.1 h.2
+  | addV v => exact zipWith_add_zeros a v h.1 h.2
+
+theorem zipWith_apply_identity (ops : List ArrOp) (vals : List (List Rat))
+    (h : List.Forall₂ (fun op a => ArrOp.IsIdentity a op) ops vals) :
+    List.zipWith (fun op a => op.apply a) ops vals = vals := by
+  induction h with
+  | nil => rfl
+  | cons hh _ ih => simp only [List.zipWith_cons_cons, ih, ArrOp.apply_identity _ _ hh]
 
 end HcipyVerif.Grid
